@@ -61,6 +61,8 @@ func limitSeqFrames(L int) []rawFrame {
 	return fs
 }
 
+var limSeqMismatches int
+
 func limitSeqFamily(prop string) {
 	limits := []int{64, 100, 256, 1024, 2048}
 	for li, L := range limits {
@@ -115,7 +117,9 @@ func limitSeqFamily(prop string) {
 				rep.Ops += len(res)
 				rep.Case(fmt.Sprintf("limseq/%s/L=%d/%s", prop, L, sg.Kind), true)
 				rep.Stat("limseq:" + prop)
-				if d := compareModel(model, ep, res); d != "" {
+				if d := compareModel(model, ep, res); d != "" && limSeqMismatches < 3 {
+					// a few are enough: the budget of mismatches (tooMany) belongs to the generators that run after this family
+					limSeqMismatches++
 					finding("mismatch", prop, "ws-receiver-model", "receiver: "+d, rp)
 				}
 				sig, what := check13(ep, res, exp, true, true)
